@@ -35,7 +35,7 @@ CLAIM = {
              "FromSlice, TakeWhile, DropWhile, Filter, Map, Plus, Join (join functions incl. nil-returning and nested expressions) "
              "building and draining with the documented loop yields exactly the list denotation (take-while, drop-while, filter, map, "
              "append, flat-map), and ForEach visits that list in order up to and including the first failing callback and returns its "
-             "error. The model is run against the real iterators on all trees of depth <= 2 over a code alphabet and on random deeper "
+             "error, the iterator then standing on the element that failed (no further Next()). The model is run against the real iterators on all trees of depth <= 2 over a code alphabet and on random deeper "
              "trees; the observation is also checked directly against the list denotation and the source slices are compared before/after."),
     "design_ref": "DESIGN.md 2.3, 3/C14",
     "note": ("Trusted: Coq kernel + vm_compute, the hand-written model (fidelity = differential testing, bounded by the generators), "
